@@ -1,10 +1,11 @@
 #!/bin/bash
-# usage: confirm_seed.sh <pid e.g. c03> <n>   — confirms /tmp/seed/out/<pid>_<n> in worktree /tmp/seed/<pid>
+# usage: [SEEDROOT=/tmp/seed3] confirm_seed.sh <pid e.g. c03> <n>   — confirms $SEEDROOT/out/<pid>_<n> in worktree $SEEDROOT/<pid>
 # 1. demo passes on clean tree  2. demo fails with patch  3. stable baseline tests still pass with patch
 set -u
 pid=$1; n=$2
-wt=/tmp/seed/$pid; out=/tmp/seed/out/${pid}_$n; dst=/verif/seeded/${pid}_$n
-export CARGO_NET_OFFLINE=true CARGO_TARGET_DIR=/tmp/seed/${pid}_target
+root=${SEEDROOT:-/tmp/seed}
+wt=$root/$pid; out=$root/out/${pid}_$n; dst=/verif/seeded/${pid}_$n
+export CARGO_NET_OFFLINE=true CARGO_TARGET_DIR=$root/${pid}_target
 mkdir -p $dst
 log=$dst/confirm.log; : > $log
 cd $wt || exit 2
